@@ -22,12 +22,12 @@ type M struct {
 	d    []float64
 }
 
-func newM(r, c int) *M                { return &M{r: r, c: c, d: make([]float64, r*c)} }
-func (a *M) at(i, j int) float64      { return a.d[i*a.c+j] }
-func (a *M) set(i, j int, v float64)  { a.d[i*a.c+j] = v }
-func (a *M) add(i, j int, v float64)  { a.d[i*a.c+j] += v }
-func (a *M) clone() *M                { b := newM(a.r, a.c); copy(b.d, a.d); return b }
-func (a *M) dense() *mat.Dense        { return mat.NewDense(a.r, a.c, append([]float64(nil), a.d...)) }
+func newM(r, c int) *M               { return &M{r: r, c: c, d: make([]float64, r*c)} }
+func (a *M) at(i, j int) float64     { return a.d[i*a.c+j] }
+func (a *M) set(i, j int, v float64) { a.d[i*a.c+j] = v }
+func (a *M) add(i, j int, v float64) { a.d[i*a.c+j] += v }
+func (a *M) clone() *M               { b := newM(a.r, a.c); copy(b.d, a.d); return b }
+func (a *M) dense() *mat.Dense       { return mat.NewDense(a.r, a.c, append([]float64(nil), a.d...)) }
 func (a *M) col(j int) []float64 {
 	v := make([]float64, a.r)
 	for i := range v {
